@@ -400,6 +400,29 @@ def loads (b : Backend) (s : List Char) : Option Json :=
     | some v => if fits64 v then some v else none
     | none => none
 
+/-! ## decoding the same text again (history must not matter)
+
+A decoder may remember what it decoded before.  `Cache` is such a memory; `loadsMemo` looks a text up first and
+only decodes on a miss.  Values are immutable here, so the only thing that can go wrong is an entry that does not
+belong to its text: `cacheOk`. -/
+
+abbrev Cache := List (List Char × Json)
+
+def cacheGet (c : Cache) (t : List Char) : Option Json :=
+  match c with
+  | [] => none
+  | (t', v) :: rest => if t' = t then some v else cacheGet rest t
+
+def cacheOk (c : Cache) : Prop := ∀ t v, cacheGet c t = some v → dec t = some v
+
+def loadsMemo (c : Cache) (t : List Char) : Cache × Option Json :=
+  match cacheGet c t with
+  | some v => (c, some v)
+  | none =>
+    match dec t with
+    | some v => ((t, v) :: c, some v)
+    | none => (c, none)
+
 /-! ## well-formedness -/
 
 /-- a float token: RFC 8259 number with a fraction or an exponent -/
